@@ -109,10 +109,10 @@ where
 {
     writeln!(writer, "#[derive(Debug, Default, YaSerialize, YaDeserialize)]")?;
     if let Some(tns) = &target_namespace {
-        let namespaces = format!("\"{}\" = \"{}\"", tns.abbreviation, tns.namespace);
+        let namespaces = format!("\"{}\" = {:?}", tns.abbreviation, tns.namespace);
         writeln!(
             writer,
-            "#[yaserde(prefix = \"{}\", namespaces = {{{}}}, rename = \"{}\")]",
+            "#[yaserde(prefix = \"{}\", namespaces = {{{}}}, rename = {:?})]",
             tns.abbreviation, namespaces, xml_name
         )?;
     }
@@ -159,20 +159,20 @@ where
 
     writeln!(writer, "#[derive(Debug, Default, YaSerialize, YaDeserialize)]")?;
     if let Some(tns) = &target_namespace {
-        let mut namespaces = format!("\"{}\" = \"{}\"", tns.abbreviation, tns.namespace);
+        let mut namespaces = format!("\"{}\" = {:?}", tns.abbreviation, tns.namespace);
         // members declared in another namespace (inherited or referenced) are written with that namespace's prefix
         let mut declared = vec![tns.abbreviation.as_str()];
         for field in fields {
             if let Some(ns) = &field.target_namespace {
                 if !declared.contains(&ns.abbreviation.as_str()) {
                     declared.push(ns.abbreviation.as_str());
-                    namespaces.push_str(&format!(", \"{}\" = \"{}\"", ns.abbreviation, ns.namespace));
+                    namespaces.push_str(&format!(", \"{}\" = {:?}", ns.abbreviation, ns.namespace));
                 }
             }
         }
         writeln!(
             writer,
-            "#[yaserde(prefix = \"{}\", namespaces = {{{}}}, rename = \"{}\")]",
+            "#[yaserde(prefix = \"{}\", namespaces = {{{}}}, rename = {:?})]",
             tns.abbreviation, namespaces, xml_name
         )?;
     }
